@@ -144,9 +144,13 @@ def r20_3(ctx: Ctx):
         if c is None:
             obs.append(ctx.ob("R20.3", t, t.node, status=VIOLATION, detail=f"tree() no longer calls {name}", construct=name))
             continue
-        args = [norm(a) for a in c.args] + [norm(k.value) for k in c.keywords]
-        ok = f"{sn}.root" in args and f"{sn}.best_individual.fitness" in args
-        obs.append(ctx.ob("R20.3", t, c, status=OK if ok else VIOLATION, detail=f"{name}(root, best fitness of the whole tree)" if ok else f"{name} is called with ({', '.join(args)}); expected the root and {sn}.best_individual.fitness"))
+        from ..core import canon, local_defs
+
+        tdefs = local_defs(t)
+        args = [canon(a, tdefs) for a in c.args] + [canon(k.value, tdefs) for k in c.keywords]
+        ok = any(a in (f"{sn}.root", f"{sn}.levels[0][0]", f"{sn}._levels[0][0]") for a in args) and f"{sn}.best_individual.fitness" in args
+        other_best = [a for a in args if a.endswith(".fitness") and a != f"{sn}.best_individual.fitness"]
+        obs.append(ctx.ob("R20.3", t, c, status=OK if ok else VIOLATION if other_best else INCONCLUSIVE, detail=f"{name}(root, best fitness of the whole tree)" if ok else f"{name} is called with ({', '.join(args)}); expected the root and {sn}.best_individual.fitness"))
     f = ctx.prog.modules["pyhms.utils.print_tree"].functions["format_deme_children_tree"]
     ps = f.params()
     loops = [n for n in body_walk(f.node) if isinstance(n, ast.For)]
@@ -188,7 +192,34 @@ def r20_4(ctx: Ctx):
     s = ctx.prog.own_method("DemeTree", "summary")
     sn = s.self_name()
     defs = local_defs(s)
-    vals = {canon(v, defs) for v in _interpolated(s.node)}
+    # interpolations of summary() and of the private helpers of the class it calls (e.g. a per-level block)
+    sources = [(s, defs)]
+    seen_h = {s.qualname}
+    todo = [s]
+    while todo:
+        g = todo.pop()
+        for c in body_walk(g.node):
+            if isinstance(c, ast.Call) and isinstance(c.func, ast.Attribute) and isinstance(c.func.value, ast.Name) and c.func.value.id == g.self_name() and c.func.attr.startswith("_") and s.cls is not None:
+                h = ctx.prog.lookup_method(s.cls, c.func.attr)
+                if h is not None and h.qualname not in seen_h:
+                    seen_h.add(h.qualname)
+                    sources.append((h, local_defs(h)))
+                    todo.append(h)
+    vals = set()
+    labelled = []  # (literal text before the value, value text)
+    for g, gd in sources:
+        sub = {k: v for k, v in gd.items()}
+        for js in ast.walk(g.node):
+            if isinstance(js, ast.JoinedStr):
+                prev = ""
+                for part in js.values:
+                    if isinstance(part, ast.Constant) and isinstance(part.value, str):
+                        prev = part.value
+                    elif isinstance(part, ast.FormattedValue):
+                        vt = canon(part.value, sub).replace(f"{g.self_name()}.", f"{sn}.") if g.self_name() != sn else canon(part.value, sub)
+                        vals.add(vt)
+                        labelled.append((prev.strip().lower(), vt))
+    LABELS = {"metaepoch count": "metaepoch count", "total evaluations": "number of evaluations", "number of demes": "number of demes", "best fitness": "best fitness", "best genome": "best individual"}
     need = {
         "metaepoch count": [f"{sn}.metaepoch_count"],
         "total evaluations": [f"{sn}.n_evaluations"],
@@ -198,18 +229,21 @@ def r20_4(ctx: Ctx):
     }
     for what, alts in need.items():
         ok = any(a in vals for a in alts)
-        obs.append(ctx.ob("R20.4", s, s.node, status=OK if ok else VIOLATION, detail=f"summary reports the {what} from {alts[0]}" if ok else f"summary() no longer reports the {what} from `{alts[0]}` (interpolated values: {sorted(v for v in vals if len(v) < 60)[:12]})", construct=f"summary:{what}"))
+        # positive evidence: the line carrying this label interpolates something else
+        relabelled = [v for lab, v in labelled if lab.startswith(LABELS[what]) and v not in alts and not v.startswith(("level", "len(level", "sum(")) and f"{sn}." in v]
+        wrong = not ok and bool(relabelled)
+        obs.append(ctx.ob("R20.4", s, s.node, status=OK if ok else VIOLATION if wrong else INCONCLUSIVE, detail=f"summary reports the {what} from {alts[0]}" if ok else f"summary() no longer reports the {what} from `{alts[0]}` (interpolated values: {sorted(v for v in vals if len(v) < 60)[:12]})", construct=f"summary:{what}"))
     # per-level figures: sum(d.n_evaluations for d in <level list>) and len(<same list>)
     import re
 
     sums = [re.fullmatch(r"sum\(\(?\[?(\w+)\.n_evaluationsfor\1in(\w+)\]?\)?\)", v) for v in vals]
     sums = [m for m in sums if m]
     ok = bool(sums)
-    obs.append(ctx.ob("R20.4", s, s.node, status=OK if ok else VIOLATION, detail="per-level evaluation total = sum of the level's demes' counters" if ok else "summary() no longer reports a per-level sum of deme.n_evaluations", construct="summary:level evaluations"))
+    obs.append(ctx.ob("R20.4", s, s.node, status=OK if ok else INCONCLUSIVE, detail="per-level evaluation total = sum of the level's demes' counters" if ok else "summary() no longer reports a per-level sum of deme.n_evaluations", construct="summary:level evaluations"))
     if ok:
         lst = sums[0].group(2)
         ok2 = f"len({lst})" in vals
-        obs.append(ctx.ob("R20.4", s, s.node, status=OK if ok2 else VIOLATION, detail=f"per-level deme count = len({lst})" if ok2 else f"summary() does not report the level's deme count as len({lst})", construct="summary:level deme count"))
+        obs.append(ctx.ob("R20.4", s, s.node, status=OK if ok2 else INCONCLUSIVE, detail=f"per-level deme count = len({lst})" if ok2 else f"summary() does not report the level's deme count as len({lst})", construct="summary:level deme count"))
     fd = ctx.prog.modules["pyhms.utils.print_tree"].functions["format_deme"]
     d = fd.params()[0]
     fdefs = local_defs(fd)
@@ -222,7 +256,7 @@ def r20_4(ctx: Ctx):
                 expanded.add(canon(v, fdefs))
     for what, txt in {"evaluation count": f"{d}.n_evaluations", "best fitness": f"{d}.best_individual.fitness"}.items():
         ok = txt in expanded
-        obs.append(ctx.ob("R20.4", fd, fd.node, status=OK if ok else VIOLATION, detail=f"deme line carries the deme's {what} ({txt})" if ok else f"format_deme no longer renders the deme's {what} from `{txt}`", construct=f"format_deme:{what}"))
+        obs.append(ctx.ob("R20.4", fd, fd.node, status=OK if ok else INCONCLUSIVE, detail=f"deme line carries the deme's {what} ({txt})" if ok else f"format_deme no longer renders the deme's {what} from `{txt}`", construct=f"format_deme:{what}"))
     return obs
 
 
